@@ -54,6 +54,9 @@ func ListenAndServe(ctx context.Context, args ...object.Object) object.Object {
 
 	stop := make(chan os.Signal, 1)
 	signal.Notify(stop, syscall.SIGINT, syscall.SIGTERM)
+	// (only while this server runs: a channel left registered would keep
+	// the signals from ending the process after the evaluation is over)
+	defer signal.Stop(stop)
 	select {
 	case <-ctx.Done():
 	case <-stop:
@@ -119,6 +122,9 @@ func ListenAndServeTLS(ctx context.Context, args ...object.Object) object.Object
 	// like ListenAndServe does
 	stop := make(chan os.Signal, 1)
 	signal.Notify(stop, syscall.SIGINT, syscall.SIGTERM)
+	// (only while this server runs: a channel left registered would keep
+	// the signals from ending the process after the evaluation is over)
+	defer signal.Stop(stop)
 	select {
 	case <-ctx.Done():
 	case <-stop:
